@@ -22,6 +22,7 @@ class ScopeGen:
         self.allow_call = allow_call
         self.allow_with = allow_with
         self.cycles = cycles
+        self.helpers: list[tuple[str, str]] = []  # (helper set name, name its member `r` refers to)
 
     def lit(self) -> str:
         self.k += 1
@@ -46,7 +47,16 @@ class ScopeGen:
             elif r < 0.92:
                 helper_needed = True
                 lines.append("%sinherit (s%d) %s;" % (ind, self.k + 1, n))
-                lines.append("%ss%d = { %s = %s; };" % (ind, self.k + 1, n, self.lit()))
+                hname = "s%d" % (self.k + 1)
+                if rng.random() < 0.6:
+                    # the helper set uses a name it also defines: `r` refers to the *enclosing* scope's name
+                    # (a plain set binds nothing for its own values)
+                    other = rng.choice([x for x in NAMES if x != n])
+                    lines.append("%s%s = { %s = %s; %s = %s; r = %s; };" % (ind, hname, n, self.lit(), other, self.lit(), other))
+                    if not in_set:
+                        self.helpers.append((hname, other))
+                else:
+                    lines.append("%s%s = { %s = %s; };" % (ind, hname, n, self.lit()))
             else:
                 lines.append("%s%s = %s + 1;" % (ind, n, self.lit()))
         if self.cycles and rng.random() < 0.06 and not names:
@@ -126,6 +136,12 @@ class ScopeGen:
             body.append("  };")
             probes.append(["m", "y"])
             probes.append(["m", "z"])
+        deref: list[list[str]] = []
+        if self.helpers and rng.random() < 0.7:
+            # reach a helper set through a name and look at the reference inside it
+            hname, _ = rng.choice(self.helpers)
+            body.append("  y%s = %s;" % (hname[1:], hname))
+            deref.append(["y%s" % hname[1:], "->", "r"])
         if not probes:
             body.append("  x1 = n1;")
             probes.append(["x1"])
@@ -134,4 +150,4 @@ class ScopeGen:
         if out:
             text += "\n"
         text += call + ("rec " if rec else "") + "{\n" + "\n".join(body) + "\n}\n"
-        return {"text": text, "probes": probes}
+        return {"text": text, "probes": probes, "deref_probes": deref}
